@@ -18,7 +18,8 @@ def dispatch (line : String) : String :=
     else if t == "strscan" || t == "strescape" then strlitLine toks
     else if t == "jsondecm" || t == "jsonmapm" then jsonLine toks
     else if t == "detail" then detailLine toks
-    else if t == "vmexec" then vmLine toks
+    else if t == "vmexec" || t == "skelexec" then vmLine toks
+    else if t == "verify" then verifyLine toks
     else "bad-op"
 
 partial def loop (hin : IO.FS.Stream) (hout : IO.FS.Stream) : IO Unit := do
